@@ -114,6 +114,21 @@ def block_kind(toks, i, lo):
             if t.text == '>' and j - 1 > lo and toks[j - 1].text == '=':
                 return 'arm'
             if t.text == '|':
+                # `a || b {` / `a | b {` are operators inside a condition, not a closure header: a `|` whose left neighbour (skipping a second `|`)
+                # ends an operand (identifier, literal, `)`, `]`) is binary; `|x| {`, `move || {`, `(|| {` are closure headers
+                k = j - 1
+                while k > lo and toks[k].kind in ('ws', 'comment'):
+                    k -= 1
+                dbl = toks[k].kind == 'punct' and toks[k].text == '|'
+                if dbl:
+                    k -= 1
+                    while k > lo and toks[k].kind in ('ws', 'comment'):
+                        k -= 1
+                left = toks[k]
+                operand_end = (left.kind in ('ident', 'number', 'string', 'char') and left.text not in ('move', 'return', 'else', 'in')) or (left.kind == 'punct' and left.text in (')', ']'))
+                if dbl and operand_end:
+                    j = k
+                    continue
                 return 'closure'
             if t.text in (';', '{', '}'):
                 return 'block'
